@@ -527,6 +527,15 @@ fn cause_composite_count(stack: &[Layer], a: &[V], b: &[V], cfg: Cfg) -> bool {
             if h.len() != f[stack.len()].validity.len() {
                 return true;
             }
+            // a read may select any rows of the all-valid half: one row whose slot count at this layer
+            // differs from its number of leaf items is enough (e.g. struct<struct<list>> row {{[]}}: 1 slot, 0 items)
+            let half = if va { a } else { b };
+            if half.iter().any(|r| {
+                let fr = flatten(stack, std::slice::from_ref(r));
+                fr[i].validity.len() != fr[stack.len()].validity.len()
+            }) {
+                return true;
+            }
         }
     }
     false
